@@ -263,6 +263,33 @@ class UfuncAnchors:
         self.unit_stmt = ur[0]
 
 
+def scaling_call(c, fn_node=None):
+    """Is `c` the call that multiplies the out target by the simplification coefficient?  -> None | "dispatching" | "bare".
+    multiply(out, mul, out=out) goes through unyt's own __array_ufunc__ again (out still carries its previous unit);
+    np.multiply(B, mul, out=B) with B a stripped view of out (np.asarray(out) / out.view(np.ndarray), directly or through a
+    local bound once to such a view) works on the buffer."""
+    from engine.core import kwarg_of
+
+    if not (isinstance(c, ast.Call) and norm(c.func) in ("multiply", "np.multiply") and len(c.args) >= 2 and norm(c.args[1]) == "mul" and kwarg_of(c, "out") is not None):
+        return None
+    a0, o = c.args[0], kwarg_of(c, "out")
+    if norm(a0) == "out" and norm(o) == "out":
+        return "dispatching"
+
+    def bare_view_of_out(e):
+        t = norm(e)
+        if t in ("np.asarray(out)", "out.view(np.ndarray)", "out.d", "out.ndview"):
+            return True
+        if isinstance(e, ast.Name) and fn_node is not None:
+            defs = [n.value for n in ast.walk(fn_node) if isinstance(n, ast.Assign) and len(n.targets) == 1 and isinstance(n.targets[0], ast.Name) and n.targets[0].id == e.id]
+            return len(defs) == 1 and norm(defs[0]) in ("np.asarray(out)", "out.view(np.ndarray)", "out.d", "out.ndview")
+        return False
+
+    if bare_view_of_out(a0) and bare_view_of_out(o) and norm(a0) == norm(o):
+        return "bare"
+    return None
+
+
 def out_target_scaled(a: "UfuncAnchors"):
     """Typestate along every path through the wrap-up block of __array_ufunc__.  State: what the path knows about
     `mul` (one / not-one / unknown, from the tests on mul and the re-binding `mul = 1`) and whether the out target
@@ -296,7 +323,7 @@ def out_target_scaled(a: "UfuncAnchors"):
                 if isinstance(ev[1], ast.Assign) and norm(ev[1].targets[0]) == "mul":
                     know = True if norm(ev[1].value) in ("1", "1.0") else None
                 for c in ast.walk(ev[1]):
-                    if isinstance(c, ast.Call) and norm(c.func) in ("multiply", "np.multiply") and len(c.args) >= 2 and norm(c.args[0]) == "out" and norm(c.args[1]) == "mul" and kwarg_of(c, "out") is not None and norm(kwarg_of(c, "out")) == "out":
+                    if scaling_call(c, fn.node) is not None:
                         scaled = True
                         ever_not_one = False
         if not feasible or not has_out:
